@@ -247,15 +247,18 @@ func (m *SegmentUInt64Map[V]) Values() iter.Seq[V] {
 
 // Clear removes all entries from the map
 func (m *SegmentUInt64Map[V]) Clear() {
-	// For each segment
+	// Each segment takes what it held off the count while it is locked. A
+	// single Store(0) after the loop would also erase the entries a
+	// concurrent Set has put into a segment already emptied: they stay
+	// reachable, Len stops counting them, and removing one later drives
+	// Len below zero.
 	for _, segment := range m.segments {
 		segment.rwlock.Lock()
+		itemsCleared := int64(segment.data.Len())
 		segment.data.Clear()
+		m.count.Add(-itemsCleared)
 		segment.rwlock.Unlock()
 	}
-
-	// Reset count
-	m.count.Store(0)
 }
 
 // ClearSegment clears a specific segment - for radical eviction
